@@ -162,6 +162,10 @@ while len(cases) < ncase:
             s += " // %s%s %s" % (num(p), rng.choice(["%", "%", word]), c)
         s += rng.choice([" // ", "//", " //", "// "]) + comps[-1]
         f = add("string-volume%" if vol else "string-weight%", "(InString %s)" % cstr(s), lambda: formula(s), s)
+        if isinstance(f, Exception) and all(not isinstance(attempt(formula, c), Exception) for c in comps) and \
+                (not vol or all(formula(c).density for c in comps)):
+            fails.append(dict(signature="C11:valid-percent-string-rejected", what="formula(%r) raises %s: %s although every component parses and the "
+                              "spelling is documented" % (s, type(f).__name__, f), input=s))
         if isinstance(f, Formula):
             qs = ps + [100 - sum(ps)]
             direct_ratio("volume" if vol else "weight", comps, qs, f, s)
